@@ -251,10 +251,41 @@ func (w *World) foldInto(p *packages.Package, caller, hfd *ast.FuncDecl, h *type
 	// parameters ↔ arguments
 	subst := map[types.Object]*types.Var{}
 	taken := map[*types.Var]bool{}
+	bound := map[*types.Var]bool{} // parameters that keep their own variable, assigned before the body
+	var pre []ast.Stmt // `param := argument` for arguments that are not plain variables
 	bind := func(param *types.Var, arg ast.Expr) bool {
 		id, ok := ast.Unparen(arg).(*ast.Ident)
 		if !ok {
-			return false
+			// an expression: evaluated once, before the body, into the parameter's own variable — provided
+			// it cannot touch the variables the plain arguments stand for (no closure, no address taken)
+			// and the parameter is a real, named one (not the receiver)
+			if param == sig.Recv() || param.Name() == "" || param.Name() == "_" {
+				return false
+			}
+			tv, known := p.TypesInfo.Types[arg]
+			if !known || tv.Type == nil || !types.Identical(tv.Type, param.Type()) {
+				return false
+			}
+			clean := true
+			ast.Inspect(arg, func(n ast.Node) bool {
+				switch x := n.(type) {
+				case *ast.FuncLit:
+					clean = false
+				case *ast.UnaryExpr:
+					if x.Op == token.AND {
+						clean = false
+					}
+				}
+				return clean
+			})
+			if !clean {
+				return false
+			}
+			nid := &ast.Ident{NamePos: arg.Pos(), Name: param.Name()}
+			p.TypesInfo.Defs[nid] = param
+			pre = append(pre, &ast.AssignStmt{Lhs: []ast.Expr{nid}, TokPos: arg.Pos(), Tok: token.DEFINE, Rhs: []ast.Expr{arg}})
+			bound[param] = true
+			return true
 		}
 		v, ok := p.TypesInfo.Uses[id].(*types.Var)
 		if !ok || v.IsField() || v.Parent() == nil || v.Parent() == p.Types.Scope() || taken[v] {
@@ -292,7 +323,7 @@ func (w *World) foldInto(p *packages.Package, caller, hfd *ast.FuncDecl, h *type
 			if v, isVar := p.TypesInfo.Uses[id].(*types.Var); isVar && !v.IsField() {
 				inSig := hfd.Type.Pos() <= v.Pos() && v.Pos() < hfd.Body.Pos()
 				inRecv := hfd.Recv != nil && hfd.Recv.Pos() <= v.Pos() && v.Pos() < hfd.Recv.End()
-				if _, bound := subst[v]; (inSig || inRecv) && !bound {
+				if _, has := subst[v]; (inSig || inRecv) && !has && !bound[v] {
 					orphan = true
 				}
 			}
@@ -314,6 +345,7 @@ func (w *World) foldInto(p *packages.Package, caller, hfd *ast.FuncDecl, h *type
 	// spliced in flat (objects, not names, tie identifiers to their variables): the caller reads as before the split
 	var nl []ast.Stmt
 	nl = append(nl, (*list)[:idx]...)
+	nl = append(nl, pre...)
 	nl = append(nl, hfd.Body.List...)
 	nl = append(nl, (*list)[idx+1:]...)
 	*list = nl
